@@ -564,7 +564,9 @@ pub fn run_for(property: &'static str, tier: Tier, started: Instant) -> Vec<Part
                 }
                 for position in 0..4u8 {
                     if let Some((what, sig)) = one_case(existing, s, position, &mut t) {
-                        if v.len() < 4 {
+                        // only what the running check reports counts towards the cap
+                        let reportable = property == "C18" || sig == "frontier-lowered" || sig == "key-version-decreased" || sig.starts_with("panic");
+                        if reportable && v.len() < 4 {
                             v.push(Viol { what, sig, replay: json!({"engine":"catchup","existing":existing,"supplied":supplied_json(s),"position":position}) });
                         }
                     }
